@@ -8,6 +8,7 @@
 #include <iostream>
 #include <fstream>
 #include <algorithm>
+#include <set>
 
 
 using namespace std;
@@ -140,6 +141,53 @@ void AttributesTools::actualizeAttributesMap(
 
 /******************************************************************************/
 
+namespace
+{
+// Value of variable 'name' with every reference replaced. 'inProgress' holds the variables being expanded
+// (a reference to one of them is cyclic and is ignored), 'done' the variables already fully resolved.
+std::string resolveOneVariable(
+    const std::string& name,
+    std::map<std::string, std::string>& am,
+    std::set<std::string>& inProgress,
+    std::set<std::string>& done,
+    const std::string& varStart,
+    const std::string& varStop)
+{
+  std::string value = am[name];
+  if (done.find(name) != done.end())
+    return value;
+  inProgress.insert(name);
+  std::string::size_type index1 = value.find(varStart);
+  while (index1 != std::string::npos)
+  {
+    std::string::size_type index2 = value.find(varStop, index1);
+    if (index2 == std::string::npos)
+      throw Exception("Syntax error, variable name is not closed.");
+    std::string varName = value.substr(index1 + 2, index2 - index1 - 2);
+    std::string varValue = "";
+    if (am.find(varName) == am.end())
+    {
+      if (ApplicationTools::error)
+        (*ApplicationTools::error << "Variable '" << varName << "' is undefined and was ignored.").endLine();
+    }
+    else if (inProgress.find(varName) != inProgress.end())
+    {
+      if (ApplicationTools::error)
+        (*ApplicationTools::error << "Variable '" << varName << "' definition is cyclic and was ignored.").endLine();
+    }
+    else
+      varValue = resolveOneVariable(varName, am, inProgress, done, varStart, varStop);
+    value = value.substr(0, index1) + varValue + value.substr(index2 + 1);
+    // The inserted text is fully resolved: continue after it.
+    index1 = value.find(varStart, index1 + varValue.size());
+  }
+  inProgress.erase(name);
+  done.insert(name);
+  am[name] = value;
+  return value;
+}
+}
+
 void AttributesTools::resolveVariables(
     std::map<std::string, std::string>& am,
     char varCode,
@@ -147,43 +195,12 @@ void AttributesTools::resolveVariables(
     char varEnd)
 {
   // Now resolve any variable:
+  std::set<std::string> inProgress, done;
+  std::string varStart = TextTools::toString(varCode) + TextTools::toString(varBeg);
+  std::string varStop = TextTools::toString(varEnd);
   for (map<string, string>::iterator it = am.begin(); it != am.end(); it++)
   {
-    string value = it->second;
-    string::size_type index1 = value.find(TextTools::toString(varCode) + TextTools::toString(varBeg));
-    while (index1 != string::npos)
-    {
-      string::size_type index2 = value.find(TextTools::toString(varEnd), index1);
-      if (index2 != string::npos)
-      {
-        string varName  = value.substr(index1 + 2, index2 - index1 - 2);
-        map<string, string>::iterator varIt = am.find(varName);
-        string varValue = "";
-        if (varIt == am.end())
-        {
-          if (ApplicationTools::error)
-            (*ApplicationTools::error << "Variable '" << varName << "' is undefined and was ignored.").endLine();
-          varValue = "";
-        }
-        else
-        {
-          if (varIt->second == value)
-          {
-            if (ApplicationTools::error)
-              (*ApplicationTools::error << "Variable '" << varName << "' definition is cyclic and was ignored.").endLine();
-            varValue = "";
-          }
-          else
-            varValue = varIt->second;
-        }
-        string newValue = value.substr(0, index1) + varValue + value.substr(index2 + 1);
-        it->second = newValue;
-        value = it->second;
-        index1 = value.find(TextTools::toString(varCode) + TextTools::toString(varBeg));
-      }
-      else
-        throw Exception("Syntax error, variable name is not closed.");
-    }
+    resolveOneVariable(it->first, am, inProgress, done, varStart, varStop);
   }
 }
 
